@@ -135,8 +135,15 @@ let print_event (e : event) =
     (opt_n c.ci_transport) (opt_n c.ci_port_src) (opt_n c.ci_port_dst)
     (String.concat "" (List.map (fun x -> " " ^ string_of_int (int_of_n x)) e.ev_extra))
 
+(* monitors: the specifications' executable predicates, evaluated on the
+   IMPLEMENTATION's answer (given as impl=<hex>|N on the F line) *)
+let monitors : (string * (config -> n list -> n list option -> bool)) list = [
+  ("C06", ok_C06);
+]
+
 let () =
   let env = read_env Sys.argv.(1) in
+  let wanted = if Array.length Sys.argv > 2 then String.split_on_char ',' Sys.argv.(2) else [] in
   let cfg = ref default_cfg in
   let tbl : table ref = ref [] in
   (try
@@ -149,14 +156,22 @@ let () =
           let (h, opts) = match rest with
             | x :: o when not (String.contains x '=') -> (x, o)
             | o -> ("", o) in
-          let date = ref [] and ft = ref N0 in
+          let date = ref [] and ft = ref N0 and impl = ref None in
           List.iter (fun s -> let (k, v) = kv s in
                       match k with
                       | "date" -> date := bytes_of_hex v
                       | "ft" -> ft := n_of_dec v
+                      | "impl" -> impl := Some (if v = "N" then None else Some (bytes_of_hex v))
                       | _ -> ()) opts;
           let clk = { clk_date = !date; clk_filetime = !ft } in
-          (match reply env !cfg clk !tbl (bytes_of_hex h) with
+          let frame = bytes_of_hex h in
+          (match !impl with
+           | Some ir ->
+             List.iter (fun (name, m) ->
+               if List.mem name wanted then
+                 Printf.printf "V %s %d\n" name (if m !cfg frame ir then 1 else 0)) monitors
+           | None -> ());
+          (match reply env !cfg clk !tbl frame with
            | Ok ((tb', out), evs) ->
              tbl := tb';
              (match out with
